@@ -40,6 +40,12 @@ MUTANTS = {
         ("expired-open-message-still-certified", CS,
          "        if open_message.is_expired {\n            warn!(\n                self.logger,\n                \"create_certificate: open message",
          "        if false && open_message.is_expired {\n            warn!(\n                self.logger,\n                \"create_certificate: open message"),
+        # two cooperating sites: the state machine no longer drops an expired message, the certifier no longer refuses it
+        ("expiry-ignored-by-state-machine-and-certifier", [
+            ("mithril-aggregator/src/runtime/runner.rs", "        Ok(exists_newer_open_message || is_expired_open_message)", "        let _ = is_expired_open_message;\n        Ok(exists_newer_open_message)"),
+            (CS, "        if open_message.is_expired {\n            warn!(\n                self.logger,\n                \"create_certificate: open message",
+                 "        if false && open_message.is_expired {\n            warn!(\n                self.logger,\n                \"create_certificate: open message"),
+        ]),
         ("metadata-lists-all-registered-signers", CS,
          "            .filter(|signer| signer_ids.contains(&signer.party_id))\n", ""),
     ],
